@@ -2,6 +2,7 @@
 C20 — A backup opens to the same log.
 -/
 import Klev.Proofs.Backup
+import Klev.Proofs.Witness
 namespace Klev.C20
 
 /-- The backup of any reachable state is a clean directory (Check passes on every segment:
@@ -22,6 +23,29 @@ theorem append_extends (l : Log) (hinv : Inv l) (hro : l.opts.readonly = false)
   Klev.append_extends l hinv hro batch
 
 end Klev.C20
+
+/-! ### Non-vacuity: the theorems at the witness log `Witness.wL` and at what `Open` makes of its
+backup, read-only with Check (`Witness.wRO`) and read-write with Recover (`Witness.wRW`)
+(`Klev/Proofs/Witness.lean`) -/
+section NonVacuity
+open Klev Klev.Witness
+
+example := Klev.C20.backup_clean wL wL_inv
+example := Klev.C20.backup_opens_same wL wL_inv ooRO wRO open_wRO
+example := Klev.C20.backup_opens_same wL wL_inv ooRec wRW open_wRW
+example := Klev.C20.append_extends wL wL_inv wL_rw [(60, [9], [9]), (61, [], [])]
+
+-- evaluated: four segment directories entries, all with their index file; the backup opened
+-- read-write answers every query like the original
+example : (backupDisk wL).map (fun d => (d.base, d.recs.map (·.off), d.idxf.isSome)) =
+    [(0, [0, 1], true), (2, [2, 4], true), (5, [5, 6], true), (8, [8], true)] := by decide
+example : (wRW.consume 3 2).2 = (wL.consume 3 2).2 ∧ (wRW.get 7).2 = (wL.get 7).2 ∧
+    (wRW.getByKey [1]).2 = (wL.getByKey [1]).2 ∧ (wRW.getByTime 20).2 = (wL.getByTime 20).2 ∧
+    (wRW.stat).2 = (wL.stat).2 ∧ (wRW.publish [(60, [9], [9])]).2 = (wL.publish [(60, [9], [9])]).2 := by decide
+example : (abs (wL.publish [(60, [9], [9]), (61, [], [])]).1).live.map (·.off) = [0, 1, 2, 4, 5, 6, 8, 9, 10] := by
+  decide
+
+end NonVacuity
 
 #print axioms Klev.C20.backup_clean
 #print axioms Klev.C20.backup_opens_same
